@@ -15,18 +15,19 @@ const (
 )
 
 type tmplCfg struct {
-	outputs   int      // 1..2
-	hidden    int      // 0..2
-	genes     int      // number of connection genes
-	traits    int      // 1..2
-	nilTraits bool     // nodes/links may carry a nil trait (forked)
-	params    int      // trait parameter count
-	fixedBase bool     // first two genes are input->out1 and bias->out1 (XOR-like start), remaining ones forked
-	symRecur  bool     // recurrent flags symbolic (else false)
-	symEnable bool     // enabled flags symbolic (else true)
-	links     [][2]int // explicit endpoints (indices into the node list) for the first len(links) genes
-	biasFree  bool     // with fixedBase: the second base gene is input->last node, so the bias sensor is unconnected
-	lateInput bool     // an additional input sensor with the LAST id (sensors need not come first in a genome)
+	outputs    int      // 1..2
+	hidden     int      // 0..2
+	genes      int      // number of connection genes
+	traits     int      // 1..2
+	nilTraits  bool     // nodes/links may carry a nil trait (forked)
+	params     int      // trait parameter count
+	fixedBase  bool     // first two genes are input->out1 and bias->out1 (XOR-like start), remaining ones forked
+	symRecur   bool     // recurrent flags symbolic (else false)
+	symEnable  bool     // enabled flags symbolic (else true)
+	links      [][2]int // explicit endpoints (indices into the node list) for the first len(links) genes
+	biasFree   bool     // with fixedBase: the second base gene is input->last node, so the bias sensor is unconnected
+	lateInput  bool     // an additional input sensor with the LAST id (sensors need not come first in a genome)
+	lateOutput bool     // an additional, unconnected output node with the LAST id (a hidden node precedes it in the node list)
 }
 
 func tTraits(tag string, c tmplCfg) []*neat.Trait {
@@ -85,6 +86,12 @@ func tNodes(tag string, ts []*neat.Trait, c tmplCfg) []*network.NNode {
 		nodes = append(nodes, n)
 		id++
 	}
+	if c.lateOutput {
+		lo := network.NewNNode(id, network.OutputNeuron)
+		id++
+		lo.Trait = tPickTrait(tag+".lateout", ts, false, false, 0)
+		nodes = append(nodes, lo)
+	}
 	if c.lateInput {
 		late := network.NewSensorNode(id, false)
 		late.Trait = tPickTrait(tag+".late", ts, false, false, 0)
@@ -100,6 +107,9 @@ func tGenes(tag string, ts []*neat.Trait, nodes []*network.NNode, c tmplCfg) []*
 	nonSensors := len(nodes) - 2
 	if c.lateInput {
 		nonSensors--
+	}
+	if c.lateOutput {
+		nonSensors-- // the late output stays unconnected unless named in links
 	}
 	for i := 0; i < c.genes; i++ {
 		var inN, outN *network.NNode
